@@ -84,6 +84,207 @@ theorem inside_can_leave (s : Occ) : (0 < s.readers → (step s .exitR).isSome =
     (0 < s.writers → (step s .exitW).isSome = true) := by
   constructor <;> intro h <;> simp [step, h]
 
+/-! ### 2a. the same at the level of goroutines: programs of read- and write-locked operations under any schedule
+
+`Thr` = a goroutine (the lock modes of the operations it still has to do, the region it is inside of); `Sys.move` gives one goroutine a turn (leave
+the region it is in, or enter the region of its next operation when the RWMutex specification `step` admits it); `Sys.run` follows any schedule.
+Invariant `Inv`: the mutex's counters ARE the numbers of goroutines inside regions of each kind (`move_keeps_inv`, by the counting lemma
+`countIn_set`); with `Excl` this gives mutual exclusion between goroutines, not only between counter values. -/
+
+inductive Mode where
+  | r | w
+  deriving DecidableEq, Repr
+
+/-- a goroutine: the lock modes of the operations it still has to do, and the region it is inside of (if any) -/
+structure Thr where
+  todo : List Mode
+  inside : Option Mode
+  deriving DecidableEq, Repr
+
+structure Sys where
+  ths : List Thr
+  occ : Occ
+
+def enterEv : Mode → Ev
+  | .r => .enterR
+  | .w => .enterW
+
+def exitEv : Mode → Ev
+  | .r => .exitR
+  | .w => .exitW
+
+/-- goroutine `i` makes its next move: it leaves the region it is inside of, or enters the region of its next operation if the mutex admits it now
+(`none`: the goroutine does not exist, has finished, or has to wait) -/
+def Sys.move (s : Sys) (i : Nat) : Option Sys :=
+  match s.ths[i]? with
+  | none => none
+  | some t =>
+    match t.inside with
+    | some m => (step s.occ (exitEv m)).map (fun o => ⟨s.ths.set i { t with inside := none }, o⟩)
+    | none =>
+      match t.todo with
+      | [] => none
+      | m :: rest => (step s.occ (enterEv m)).map (fun o => ⟨s.ths.set i ⟨rest, some m⟩, o⟩)
+
+/-- a schedule: which goroutine is given the next turn (a turn on which it cannot move is lost) -/
+def Sys.run (s : Sys) : List Nat → Sys
+  | [] => s
+  | i :: is => match s.move i with
+    | some s' => s'.run is
+    | none => s.run is
+
+def countIn (m : Mode) : List Thr → Nat
+  | [] => 0
+  | t :: ts => (if t.inside = some m then 1 else 0) + countIn m ts
+
+/-- the occupancy the mutex records is the number of goroutines inside regions of each kind -/
+def Inv (s : Sys) : Prop := s.occ.readers = countIn .r s.ths ∧ s.occ.writers = countIn .w s.ths
+
+theorem countIn_set (m : Mode) (t' : Thr) : ∀ (ths : List Thr) (i : Nat) (t : Thr), ths[i]? = some t →
+    countIn m (ths.set i t') + (if t.inside = some m then 1 else 0) = countIn m ths + (if t'.inside = some m then 1 else 0) := by
+  intro ths
+  induction ths with
+  | nil => intro i t h; simp at h
+  | cons x xs ih =>
+    intro i t h
+    cases i with
+    | zero =>
+      simp at h; subst h
+      simp only [List.set, countIn]; omega
+    | succ j =>
+      simp at h
+      have := ih j t h
+      simp only [List.set, countIn]; omega
+
+theorem countIn_pos (m : Mode) : ∀ (ths : List Thr) (i : Nat) (t : Thr), ths[i]? = some t → t.inside = some m → 1 ≤ countIn m ths := by
+  intro ths
+  induction ths with
+  | nil => intro i t h; simp at h
+  | cons x xs ih =>
+    intro i t h hm
+    cases i with
+    | zero => simp at h; subst h; simp [countIn, hm]
+    | succ j => simp at h; have := ih j t h hm; simp only [countIn]; omega
+
+theorem countIn_two (m : Mode) : ∀ (ths : List Thr) (i j : Nat) (t u : Thr), i ≠ j → ths[i]? = some t → ths[j]? = some u →
+    t.inside = some m → u.inside = some m → 2 ≤ countIn m ths := by
+  intro ths
+  induction ths with
+  | nil => intro i j t u _ h; simp at h
+  | cons x xs ih =>
+    intro i j t u hne hi hj hmt hmu
+    cases i with
+    | zero =>
+      cases j with
+      | zero => exact absurd rfl hne
+      | succ j' =>
+        simp at hi hj; subst hi
+        have := countIn_pos m xs j' u hj hmu
+        simp only [countIn, hmt]; simp; omega
+    | succ i' =>
+      cases j with
+      | zero =>
+        simp at hi hj; subst hj
+        have := countIn_pos m xs i' t hi hmt
+        simp only [countIn, hmu]; simp; omega
+      | succ j' =>
+        simp at hi hj
+        have := ih i' j' t u (by omega) hi hj hmt hmu
+        simp only [countIn]; omega
+
+
+theorem move_keeps_inv (s s' : Sys) (i : Nat) (h : Inv s) (hm : s.move i = some s') : Inv s' := by
+  unfold Sys.move at hm
+  cases hi : s.ths[i]? with
+  | none => simp [hi] at hm
+  | some t =>
+    simp only [hi] at hm
+    cases hin : t.inside with
+    | some m =>
+      simp only [hin, Option.map_eq_some_iff] at hm
+      obtain ⟨o, ho, rfl⟩ := hm
+      have cr := countIn_set .r { t with inside := none } s.ths i t hi
+      have cw := countIn_set .w { t with inside := none } s.ths i t hi
+      unfold Inv at *
+      cases m <;> simp only [exitEv, step] at ho <;> split at ho <;> simp at ho <;> subst ho <;> simp [hin] at cr cw ⊢ <;> omega
+    | none =>
+      simp only [hin] at hm
+      cases htd : t.todo with
+      | nil => simp [htd] at hm
+      | cons m rest =>
+        simp only [htd, Option.map_eq_some_iff] at hm
+        obtain ⟨o, ho, rfl⟩ := hm
+        have cr := countIn_set .r ⟨rest, some m⟩ s.ths i t hi
+        have cw := countIn_set .w ⟨rest, some m⟩ s.ths i t hi
+        unfold Inv at *
+        cases m <;> simp only [enterEv, step] at ho <;> split at ho <;> simp at ho <;> subst ho <;> simp [hin] at cr cw ⊢ <;> omega
+
+theorem move_keeps_excl (s s' : Sys) (i : Nat) (h : Excl s.occ) (hm : s.move i = some s') : Excl s'.occ := by
+  unfold Sys.move at hm
+  cases hi : s.ths[i]? with
+  | none => simp [hi] at hm
+  | some t =>
+    simp only [hi] at hm
+    cases hin : t.inside with
+    | some m =>
+      simp only [hin, Option.map_eq_some_iff] at hm
+      obtain ⟨o, ho, rfl⟩ := hm
+      exact step_preserves_excl s.occ o (exitEv m) h ho
+    | none =>
+      simp only [hin] at hm
+      cases htd : t.todo with
+      | nil => simp [htd] at hm
+      | cons m rest =>
+        simp only [htd, Option.map_eq_some_iff] at hm
+        obtain ⟨o, ho, rfl⟩ := hm
+        exact step_preserves_excl s.occ o (enterEv m) h ho
+
+theorem run_keeps (sched : List Nat) : ∀ (s : Sys), Inv s → Excl s.occ → Inv (s.run sched) ∧ Excl (s.run sched).occ := by
+  induction sched with
+  | nil => intro s h1 h2; exact ⟨h1, h2⟩
+  | cons i rest ih =>
+    intro s h1 h2
+    simp only [Sys.run]
+    cases hm : s.move i with
+    | none => exact ih s h1 h2
+    | some s' => exact ih s' (move_keeps_inv s s' i h1 hm) (move_keeps_excl s s' i h2 hm)
+
+/-- the goroutines before any of them has started -/
+def Sys.start (progs : List (List Mode)) : Sys := ⟨progs.map (fun p => ⟨p, none⟩), Lts.init⟩
+
+theorem countIn_start (m : Mode) (progs : List (List Mode)) : countIn m (progs.map (fun p => (⟨p, none⟩ : Thr))) = 0 := by
+  induction progs with
+  | nil => rfl
+  | cons p ps ih => simp [countIn, ih]
+
+/-- ANY number of goroutines, each with ANY sequence of read- and write-locked operations on one scope, under ANY schedule: whenever a goroutine is
+inside a write region, no other goroutine is inside a region of either kind - what the environment's tables rely on (every access is made inside a
+region of its method: `env_accesses_guarded`). Goroutine level, where `writer_is_alone` speaks of the mutex's counters. -/
+theorem a_goroutine_in_a_write_region_is_alone (progs : List (List Mode)) (sched : List Nat) (i j : Nat) (t u : Thr)
+    (hij : i ≠ j) (hi : ((Sys.start progs).run sched).ths[i]? = some t) (hj : ((Sys.start progs).run sched).ths[j]? = some u)
+    (hw : t.inside = some .w) : u.inside = none := by
+  have hinv : Inv (Sys.start progs) := by simp [Inv, Sys.start, Lts.init, countIn_start]
+  have hex : Excl (Sys.start progs).occ := by simp [Excl, Sys.start, Lts.init]
+  obtain ⟨h1, h2⟩ := run_keeps sched (Sys.start progs) hinv hex
+  generalize (Sys.start progs).run sched = s at *
+  have hw1 := countIn_pos .w s.ths i t hi hw
+  cases hu : u.inside with
+  | none => rfl
+  | some m =>
+    exfalso
+    cases m with
+    | w =>
+      have := countIn_two .w s.ths i j t u hij hi hj hw hu
+      unfold Inv Excl at *; omega
+    | r =>
+      have := countIn_pos .r s.ths j u hj hu
+      unfold Inv Excl at *; omega
+
+/-- two readers may be inside together (the premise is not vacuous the other way round) -/
+example : ((Sys.start [[.r], [.r], [.w]]).run [0, 1, 2]).ths.map (·.inside) = [some .r, some .r, none] := by decide
+example : ((Sys.start [[.r], [.w]]).run [1, 0, 1, 0]).ths.map (·.inside) = [some .r, none] := by decide
+
+
 /-! ### 2b. no deadlock: what an operation does while it holds a scope's lock (regenerated on every run) -/
 
 /-- the calls the env methods make while the scope's mutex is held, as audited: `String` formats under its lock (a deferred
